@@ -80,7 +80,7 @@ class C10(Prop):
         from ..core import chash, load_known
         stats = ctx["stats"]
         known = {e["id"] for e in load_known("C10") if e.get("status") == "known"}
-        units = e2.view_suite(ctx["tier"], ctx["seed"])
+        units = e2.drop_known_units("C10", e2.view_suite(ctx["tier"], ctx["seed"]), stats)
         results = e2.run_units(units)
         ctx["info"]["progen_units"] = len(units)
         fails = []
@@ -140,10 +140,12 @@ class C10(Prop):
         return out
 
     def features(self, case, failure):
+        from .. import e2
         if case.get("_external"):
             lks, aks = case.get("kinds") or ([], [])
             clipped = any(k.startswith("ls_") for k in lks) or any(v == "cl" for d in aks for v in d.values())
-            return {"path": case.get("path") or ("eval_col" if "eval_col" in str(failure) else "eval"), "uses_clipped": clipped}
+            return {"path": case.get("path") or ("eval_col" if "eval_col" in str(failure) else "eval"), "uses_clipped": clipped,
+                    "nostl_either": e2.nostl_either_class({"cfg": case.get("cfg"), "case": case.get("case") or {"stages": []}})}
         return {}
 
     def nontrivial(self, case):
